@@ -7,6 +7,7 @@ CONSTANTS Names <- NamesCore
           Variants <- VariantsAll
           HarmTypes = {"file"}
           MaxEntries = 3
+          Reuse <- ReuseNone
           Devs = {}
 INVARIANTS Emit
 CHECK_DEADLOCK FALSE
